@@ -69,7 +69,7 @@ pub struct Failure {
 }
 
 pub enum Source<'a> {
-    Gen { rng: &'a mut Rng, profile: &'a Profile, gen: Gen, remaining: usize },
+    Gen { rng: &'a mut Rng, profile: &'a Profile, gen: Gen, remaining: usize, prefix: Vec<Op>, prefix_at: usize },
     Replay { ops: Vec<Op>, at: usize },
 }
 
@@ -115,7 +115,8 @@ impl<'a> Ctx<'a> {
     fn next_op(&mut self) -> Option<Op> {
         loop {
             match &mut self.source {
-                Source::Gen { rng, profile, gen, remaining } => {
+                Source::Gen { rng, profile, gen, remaining, prefix, prefix_at } => {
+                    if *prefix_at < prefix.len() { let op = prefix[*prefix_at].clone(); *prefix_at += 1; return Some(op); }
                     if *remaining == 0 { return None; }
                     *remaining -= 1;
                     return gen.next_op(&self.oracle, rng, profile);
@@ -167,7 +168,8 @@ impl<'a> Ctx<'a> {
         let got = abs(op, out);
         let expo = exp.out.clone().unwrap();
         match &expo { AOut::None | AOut::Err(_) => self.stats.refused += 1, AOut::Item(_) | AOut::Vals(_) | AOut::Granted(_) => self.stats.granted += 1, _ => {} }
-        if got != expo { let t = tags_out(op, &expo, &got); self.fail("oracle", t, op, format!("outcome: expected {:?}, implementation returned {:?}", expo, out)); }
+        let seam = if crate::gen::straddles(&before, op) { " [window crosses the physical end: index+count > len]" } else { "" };
+        if got != expo { let mut t = tags_out(op, &expo, &got); if cfg!(feature = "vmem") { t.push("C17"); } self.fail("oracle", t, op, format!("outcome: expected {:?}, implementation returned {:?}{seam}", expo, out)); }
         // geometry of granted windows (C06)
         if let Out::Win { ho, hl, to, tl, vals } = out {
             if let Some(r) = op.role() {
@@ -180,7 +182,7 @@ impl<'a> Ctx<'a> {
                 #[cfg(feature = "vmem")]
                 let (eho, ehl, eto, etl) = (idx, n, 0, 0);
                 if (*ho, *hl, *to, *tl) != (eho, ehl, eto, etl) || ho + hl > 2 * len || to + tl > len || vals.len() != n {
-                    self.fail("oracle", vec!["C06"], op, format!("window geometry: expected head ({eho},{ehl}) tail ({eto},{etl}), got head ({ho},{hl}) tail ({to},{tl}), len {len}"));
+                    self.fail("oracle", if cfg!(feature = "vmem") { vec!["C06", "C17"] } else { vec!["C06"] }, op, format!("window geometry: expected head ({eho},{ehl}) tail ({eto},{etl}), got head ({ho},{hl}) tail ({to},{tl}), len {len}"));
                 }
             }
         }
@@ -205,7 +207,11 @@ impl<'a> Ctx<'a> {
         }
         if obs.freed != self.oracle.freed { self.fail("oracle", vec!["C07"], op, format!("buffer releases: expected {}, observed {}", self.oracle.freed, obs.freed)); }
         if self.oracle.owned {
-            if obs.drops != exp.drops { self.fail("oracle", vec!["C08", "C09"], op, format!("destructor runs: expected {:?}, observed {:?}", exp.drops, obs.drops)); }
+            if obs.drops != exp.drops {
+                let rel = if self.oracle.freed > before.freed { " [release of the storage]" } else { "" };
+                let mut t = vec!["C08", "C09"]; if cfg!(feature = "vmem") { t.push("C17"); }
+                self.fail("oracle", t, op, format!("destructor runs: expected {:?}, observed {:?}{rel}", exp.drops, obs.drops));
+            }
             if obs.drop_zero { self.fail("oracle", vec!["C09"], op, "a destructor ran on an empty (all-zero) slot".into()); }
         }
         // Lean model
@@ -338,7 +344,7 @@ pub fn run_case<'a>(spec: &CaseSpec, source: Source<'a>, driver: Option<&'a mut 
     let mut ctx = Ctx { oracle, source, driver, failures: vec![], executed: vec![], stats: Stats::default(), log, stop_on_failure, uni: spec.uni.clone(), final_obs: Obs::default() };
     if let Some(l) = ctx.log.as_mut() { let _ = writeln!(l, "{}", spec.header()); let _ = l.flush(); }
     if let Some(d) = ctx.driver.as_mut() {
-        let line = format!("init {} {} {} {} {}", spec.len, spec.has_w as u8, spec.heap as u8, owned as u8, vals.iter().map(|v| v.to_string()).collect::<Vec<_>>().join(" "));
+        let line = format!("{} {} {} {} {} {}", if cfg!(feature = "vmem") { "initvm" } else { "init" }, spec.len, spec.has_w as u8, spec.heap as u8, owned as u8, vals.iter().map(|v| v.to_string()).collect::<Vec<_>>().join(" "));
         let a = d.ask(&line);
         if !a.starts_with("ok ") { ctx.failures.push(Failure { kind: "model", tags: vec![], step: 0, op: line, detail: format!("driver refused the case: {a}") }); }
     }
